@@ -188,12 +188,30 @@ def run_case(c):
         out['live_module_attrs'] = sorted({a for r in live if r[0] == 'module-attrs' for a in r[2]})
         out['live_hooks'] = sum(r[3] for r in live if r[0] == 'module-hooks')
         # 5. unwrap
+        pending_loss = None
         if c.get('pending'):       # leave a forward (and maybe backward) pending before unwrapping
             x, y = mk(g, B), torch.randint(0, 3, (B,), generator=g)
             loss = crit(wrapped(x), y)
             if c['pending'] == 'fb':
                 loss.backward()
+            elif c['mode'] != 'ghost':
+                pending_loss, pend_xy = loss, (x, y)
         std = wrapped.to_standard_module()
+        if pending_loss is not None:
+            # the graph built before unwrapping is an ordinary autograd graph now: its backward must behave as on a never-wrapped module
+            for p in model.parameters():
+                p.grad = None
+            twin.load_state_dict(copy.deepcopy(model.state_dict()))
+            twin.zero_grad()
+            try:
+                pending_loss.backward()
+                crit0(twin(pend_xy[0]), pend_xy[1]).backward()
+                for (n1, p1), (n2, p2) in zip(model.named_parameters(), twin.named_parameters()):
+                    if p1.requires_grad and (p1.grad is None or float((p1.grad - p2.grad).abs().max()) > 1e-12):
+                        fail('post-unwrap-pending-backward', 'backward of a forward pass made before unwrapping gives a different gradient for %s' % n1)
+                        break
+            except Exception as e:
+                fail('post-unwrap-pending-backward', 'backward of a forward pass made before unwrapping raised %s: %s' % (errname(e), str(e)[:150]))
         if std is not model:
             fail('unwrap-identity', 'to_standard_module did not return the original module object')
         res = diff_snap(snap0, snapshot(model))
